@@ -470,7 +470,7 @@ func runImports(cfg hx.Config, meta *hx.Meta) []string {
 
 // genPackage writes a package whose derive calls request many helpers from several plugins over
 // mutually assignable named and unnamed types.
-func genPackage(r *hx.Rand, name string, imp string) string {
+func genPackage(r *hx.Rand, name string, imp string) (string, string) {
 	var b strings.Builder
 	fmt.Fprintf(&b, "package %s\n\n", name)
 	if imp != "" {
@@ -526,16 +526,28 @@ func genPackage(r *hx.Rand, name string, imp string) string {
 		calls = append(calls, "deriveUnique([]int{})", "deriveSet([]string{})", "deriveContains([]int{}, 1)", "deriveUnion([]int{}, []int{})")
 	}
 	hx.Shuffle(r, calls)
-	b.WriteString("func use() {\n")
-	for _, c := range calls {
-		if strings.HasPrefix(c, "deriveDeepCopy") {
-			fmt.Fprintf(&b, "\t%s\n", c)
-		} else {
-			fmt.Fprintf(&b, "\t_ = %s\n", c)
+	// nested calls, spelled identically in every package of the module (the outer call is only typed
+	// after a first generation pass)
+	// (kept out of these packages: a reload type-checks the imports of derived.gen.go from source, ~1.5 s;
+	// the import-free module "nested" below carries them)
+	emit := func(b *strings.Builder, fn string, cs []string) {
+		fmt.Fprintf(b, "func %s() {\n", fn)
+		for _, c := range cs {
+			if strings.HasPrefix(c, "deriveDeepCopy") {
+				fmt.Fprintf(b, "\t%s\n", c)
+			} else {
+				fmt.Fprintf(b, "\t_ = %s\n", c)
+			}
 		}
+		b.WriteString("}\n")
 	}
-	b.WriteString("}\n")
-	return b.String()
+	// the calls are spread over two source files
+	h := len(calls) / 2
+	emit(&b, "use", calls[:h])
+	var b2 strings.Builder
+	fmt.Fprintf(&b2, "package %s\n\n", name)
+	emit(&b2, "use2", calls[h:])
+	return b.String(), b2.String()
 }
 
 type variant struct {
@@ -570,12 +582,33 @@ func runE2E(cfg hx.Config, meta *hx.Meta) ([]string, error) {
 		}
 	}
 	ncorpus := len(mods)
+	modFlags := map[int][]string{}
+	// nested plugin prefixes: which plugin answers a call must not depend on the iteration order of a map
+	nestedSrc := "package a\n\nfunc f(xs []int, ys []string, m map[string]int) {\n\t_ = sortUniqIDs(xs)\n\t_ = sortX(ys)\n\t_ = sortUniq(ys)\n\t_ = kk(m)\n\t_ = kkSet(xs)\n}\n"
+	mods = append(mods, map[string]string{"a/a.go": nestedSrc, "b/b.go": strings.Replace(nestedSrc, "package a", "package b", 1)})
+	modFlags[len(mods)-1] = []string{"-pluginprefix=sort=sort,unique=sortUniq,keys=kk,set=kkSet"}
+	// nested calls, spelled identically in every package of the module: the outer call is only typed after a
+	// first generation pass, so every package goes through the reload loop (no imports: a reload is cheap)
+	nested := func(pk string) string {
+		return "package " + pk + "\n\nfunc f(m map[string]bool, n map[int16][]int) {\n\t_ = deriveUnique(deriveKeys(m))\n\t_ = deriveSet(deriveUnique2(deriveKeys2(n)))\n\t_ = deriveContains(deriveKeys(m), \"x\")\n}\n"
+	}
+	mods = append(mods, map[string]string{"a/a.go": nested("a"), "b/b.go": nested("b"), "c/c.go": nested("c"), "c/k_other.go": "package c\n\nfunc g(m map[int]bool) { _ = deriveUnique3(deriveKeys3(m)) }\n"})
+	// the same with one level of nesting only (one round of unresolved calls, the same text in each package)
+	nested1 := func(pk, kt string) string {
+		return "package " + pk + "\n\nfunc f(m map[" + kt + "]bool) {\n\t_ = deriveUnique(deriveKeys(m))\n}\n"
+	}
+	mods = append(mods, map[string]string{"a/a.go": nested1("a", "string"), "b/b.go": nested1("b", "int"), "c/c.go": nested1("c", "string")})
+	ncorpus = len(mods)
 	for i := 0; i < nmod; i++ {
 		rr := r.Fork(uint64(i))
-		m := map[string]string{
-			"a/a.go": genPackage(rr, "a", ""),
-			"b/b.go": genPackage(rr, "b", "m/a"),
-			"c/c.go": genPackage(rr, "c", ""),
+		m := map[string]string{}
+		for _, pk := range [][2]string{{"a", ""}, {"b", "m/a"}, {"c", ""}} {
+			f1, f2 := genPackage(rr, pk[0], pk[1])
+			// file names whose directory order is unlikely to be alphabetical
+			m[pk[0]+"/"+pk[0]+".go"] = f1
+			m[pk[0]+"/zz_more.go"] = f2
+			m[pk[0]+"/k_empty.go"] = "package " + pk[0] + "\n"
+			m[pk[0]+"/m_doc.go"] = "// Package " + pk[0] + " is generated for the C08 battery.\npackage " + pk[0] + "\n"
 		}
 		mods = append(mods, m)
 	}
@@ -586,8 +619,12 @@ func runE2E(cfg hx.Config, meta *hx.Meta) ([]string, error) {
 		os.WriteFile(filepath.Join(root, "go.mod"), []byte("module m\n\ngo 1.24\n"), 0o644)
 		hx.WriteFiles(root, files)
 		var pkgs []string
+		seenDir := map[string]bool{}
 		for f := range files {
-			pkgs = append(pkgs, filepath.Dir(f))
+			if d := filepath.Dir(f); !seenDir[d] {
+				seenDir[d] = true
+				pkgs = append(pkgs, d)
+			}
 		}
 		sort.Strings(pkgs)
 		rel := func(ps []string) []string {
@@ -621,6 +658,11 @@ func runE2E(cfg hx.Config, meta *hx.Meta) ([]string, error) {
 			variant{"import-paths", ".", imp(pkgs)},
 			variant{"import-paths-reversed", ".", imp(rev(pkgs))},
 		)
+		// "every run": also runs that start from the file the previous run left behind
+		variants = append(variants,
+			variant{"again ./... (over the previous output)", ".", []string{"./..."}},
+			variant{"again import-paths (over the previous output)", ".", imp(pkgs)},
+		)
 		for _, p := range pkgs {
 			variants = append(variants,
 				variant{"alone ./" + p, ".", []string{"./" + p}},
@@ -637,10 +679,12 @@ func runE2E(cfg hx.Config, meta *hx.Meta) ([]string, error) {
 		exits := map[string]map[int]string{}
 		nrun := 0
 		for _, v := range variants {
-			for _, p := range pkgs {
-				os.Remove(filepath.Join(root, p, "derived.gen.go"))
+			if !strings.HasPrefix(v.name, "again ") {
+				for _, p := range pkgs {
+					os.Remove(filepath.Join(root, p, "derived.gen.go"))
+				}
 			}
-			g := hx.Goderive(cfg.Goderive, filepath.Join(root, v.dir), v.args...)
+			g := hx.Goderive(cfg.Goderive, filepath.Join(root, v.dir), append(append([]string{}, modFlags[mi]...), v.args...)...)
 			nrun++
 			if g.TimedOut {
 				// a hang is reported once; the remaining invocations of this module are skipped
